@@ -30,10 +30,13 @@ ASSUMPTIONS = ["ipaddress.IPv4Network.network_address / hostmask are the base ad
 
 def r07_1(ctx: Ctx, rep: Report) -> None:  # noqa: C901
     rep.rule("R07.1")
-    f = ctx.func("functions._add_addgr_to_aces")
+    top = ctx.func("functions._add_addgr_to_aces")
+    conv = ctx.func("functions._convert_ios_addr")
+    # the member -> Address conversion may live in a private helper (a generator) of the same module
+    units = [top] + [g for g in ctx.cg.reach([top], include_weak=False) if g is not top and g is not conv and g.module == top.module and g.cls is None and g.name.startswith("_")]
+    f = next((g for g in units if any(isinstance(x, ast.Call) and src(x.func) == "Address" and any(k.arg is None for k in x.keywords) for x in own_nodes(g.node))), top)
     cfg = ctx.cfg(f)
     rep.instance()
-    conv = ctx.func("functions._convert_ios_addr")
 
     def is_data(n: Node) -> Optional[str]:
         if n.kind == "stmt" and isinstance(n.ast, ast.Assign) and isinstance(n.ast.value, ast.Call) and isinstance(n.ast.value.func, ast.Attribute) and n.ast.value.func.attr == "data" and isinstance(n.ast.targets[0], ast.Name):
@@ -48,12 +51,12 @@ def r07_1(ctx: Ctx, rep: Report) -> None:  # noqa: C901
                 if isinstance(x, ast.Call) and src(x.func) == "Address" and any(k.arg is None for k in x.keywords):
                     ctors.append((n, x, src([k.value for k in x.keywords if k.arg is None][0])))
     if not datas or not ctors:
-        rep.violation("functions._add_addgr_to_aces", "member -> Address", "group members are no longer turned into ACE addresses through data() -> Address(**d)", where(f))
+        rep.violation(f.qualname, "member -> Address", "group members are no longer turned into ACE addresses through data() -> Address(**d)", where(f))
     else:
         for cn, call, dname in ctors:
             src_nodes = [n for n, d in datas if d == dname]
             if not src_nodes:
-                rep.violation("functions._add_addgr_to_aces", snippet(call), f"Address is built from {dname}, which is not the exported member data", where(f, call))
+                rep.violation(f.qualname, snippet(call), f"Address is built from {dname}, which is not the exported member data", where(f, call))
                 continue
 
             def is_conv(n: Node, dname=dname) -> bool:
@@ -67,9 +70,9 @@ def r07_1(ctx: Ctx, rep: Report) -> None:  # noqa: C901
                 return False
 
             if cfg.all_paths_pass(src_nodes[0], cn, is_conv, labels_avoid=("exc",)):
-                rep.ok(f"functions._add_addgr_to_aces: {snippet(call)}", f"every path from {dname} = <member>.data() passes _convert_ios_addr({dname})", where=where(f, call))
+                rep.ok(f"{f.qualname}: {snippet(call)}", f"every path from {dname} = <member>.data() passes _convert_ios_addr({dname})", where=where(f, call))
             else:
-                rep.violation("functions._add_addgr_to_aces", snippet(call), "a group member reaches Address(**d) without the IOS mask -> wildcard conversion: '10.0.0.0 255.255.255.0' is read as the wildcard 0.0.0.0/... (almost everything)", where(f, call), inp="IOS config: object-group network G / 10.0.0.0 255.255.255.0; ACE with object-group G")
+                rep.violation(f.qualname, snippet(call), "a group member reaches Address(**d) without the IOS mask -> wildcard conversion: '10.0.0.0 255.255.255.0' is read as the wildcard 0.0.0.0/... (almost everything)", where(f, call), inp="IOS config: object-group network G / 10.0.0.0 255.255.255.0; ACE with object-group G")
     # the converter itself
     rep.instance()
     d = conv.params[0]
@@ -111,6 +114,7 @@ def r07_1(ctx: Ctx, rep: Report) -> None:  # noqa: C901
     # the member's own sequence number is cleared, and only AddressAg members are converted
     rep.instance()
     ok_members = any(isinstance(n, ast.Call) and src(n.func) == "isinstance" and "AddressAg" in src(n) for n in own_nodes(f.node))
+    f = top
     appends = [n for n in own_nodes(f.node) if isinstance(n, ast.Call) and isinstance(n.func, ast.Attribute) and n.func.attr == "append" and "items" in src(n.func.value)]
     if appends and ok_members:
         rep.ok("functions._add_addgr_to_aces", f"members are appended to the ACE address items ({snippet(appends[0], 50)})", where=where(f))
@@ -120,7 +124,7 @@ def r07_1(ctx: Ctx, rep: Report) -> None:  # noqa: C901
     rep.instance()
     sel_ok = False
     for n in own_nodes(f.node):
-        if isinstance(n, ast.ListComp) and n.generators and n.generators[0].ifs:
+        if isinstance(n, (ast.ListComp, ast.GeneratorExp)) and n.generators and n.generators[0].ifs:
             c = n.generators[0].ifs[0]
             if isinstance(c, ast.Compare) and isinstance(c.ops[0], ast.Eq) and src(c.left).endswith(".name") and "addgr_name" in src(c.comparators[0]) or (isinstance(c, ast.Compare) and isinstance(c.ops[0], ast.Eq) and src(c.left).endswith(".name") and "addrgroup" in src(c.comparators[0])):
                 sel_ok = True
@@ -135,7 +139,7 @@ def r07_1(ctx: Ctx, rep: Report) -> None:  # noqa: C901
             recv_roots.add(c[0])
     name_roots = set()
     for n in own_nodes(f.node):
-        if isinstance(n, ast.ListComp) and n.generators and n.generators[0].ifs:
+        if isinstance(n, (ast.ListComp, ast.GeneratorExp)) and n.generators and n.generators[0].ifs:
             c0 = n.generators[0].ifs[0]
             if isinstance(c0, ast.Compare) and isinstance(c0.ops[0], ast.Eq) and src(c0.left).endswith(".name"):
                 rhs = deep_resolve(c0.comparators[0], senv)
@@ -244,6 +248,9 @@ def _direction_pairs(ctx: Ctx, f: Func, pairs: Dict[str, Set[str]]) -> None:
     """direction literal -> keys of the per-interface record written for it."""
     cfg = ctx.cfg(f)
     lenv = ctx.folder.local_env(f)
+    from .common import single_env
+
+    senv = single_env(f.node)
     for n in cfg.live:
         if n.kind != "stmt" or n.ast is None:
             continue
@@ -258,8 +265,18 @@ def _direction_pairs(ctx: Ctx, f: Func, pairs: Dict[str, Set[str]]) -> None:
             if isinstance(x, ast.Assign) and isinstance(x.targets[0], ast.Subscript) and isinstance(x.targets[0].slice, ast.Constant):
                 keys.add(x.targets[0].slice.value)
             # data[KEYS[direction]] = intf  with KEYS a constant mapping direction -> key
-            if isinstance(x, ast.Assign) and isinstance(x.targets[0], ast.Subscript) and isinstance(x.targets[0].slice, ast.Subscript) and "direction" in src(x.targets[0].slice.slice):
-                table = ctx.folder.fold(x.targets[0].slice.value, f.module, lenv)
+            sl = None
+            if isinstance(x, ast.Assign) and isinstance(x.targets[0], ast.Subscript):
+                sl = x.targets[0].slice
+                if isinstance(sl, ast.Name) and sl.id in senv:
+                    sl = senv[sl.id]  # key = KEYS.get(direction) ... data[key] = intf
+            tab_expr = None
+            if isinstance(sl, ast.Subscript) and "direction" in src(sl.slice):
+                tab_expr = sl.value
+            elif isinstance(sl, ast.Call) and isinstance(sl.func, ast.Attribute) and sl.func.attr == "get" and sl.args and "direction" in src(sl.args[0]):
+                tab_expr = sl.func.value
+            if tab_expr is not None:
+                table = ctx.folder.fold(tab_expr, f.module, lenv)
                 if isinstance(table, dict):
                     for d_, k_ in table.items():
                         if k_ in ("input", "output"):
